@@ -135,6 +135,39 @@ def handshakeRc (r : Res) : Int × String :=
   | .noMatch => (-1, "notpresent")
   | e => (-1, e.errClass)
 
+/-! ### repeated calls on one connection (tls_handshake / tls_write / tls_read)
+
+`tls_handshake` may be called again at any time and `tls_read`/`tls_write` call it themselves
+as long as `TLS_HANDSHAKE_COMPLETE` is not set.  Every pass through `tls_handshake_client`
+runs `SSL_connect` (which returns 1 at once on an established connection) and then the name
+check again, so the verdict is a function of (certificate, name) only. -/
+
+inductive Call
+  | hs | wr | rd
+  deriving Repr, DecidableEq
+
+/-- the part of `struct tls` that matters here: `state & TLS_HANDSHAKE_COMPLETE` -/
+structure Client where
+  complete : Bool
+  deriving Repr, DecidableEq
+
+/-- one call driven to its definite answer, on a connection whose TLS exchange itself succeeds;
+    `r` = `tls_check_name(cert, servername)`.  Result: new state, success?, tls_error class. -/
+def clientCall (r : Res) (c : Client) (k : Call) : Client × Bool × String :=
+  let viaHandshake : Client × Bool × String :=
+    let (rc, cls) := handshakeRc r
+    if rc == 0 then ({ complete := true }, true, cls) else (c, false, cls)
+  match k with
+  | .hs => viaHandshake
+  | .wr | .rd => if c.complete then (c, true, "none") else viaHandshake
+
+/-- results of a script of calls -/
+def runCalls (r : Res) : Client → List Call → List (Bool × String)
+  | _, [] => []
+  | c, k :: ks =>
+    let (c', ok, cls) := clientCall r c k
+    (ok, cls) :: runCalls r c' ks
+
 /-! ## inet_pton (usual/socket_pton.c; `strict` = glibc's extra leading-zero rule) -/
 
 /-- `inet_pton4` loop. `done` = finished octets (reversed), `cur` = `*tp` -/
@@ -309,6 +342,19 @@ def runLine (line : String) : String :=
         | some a => "6:" ++ Usual.toHex a
         | none => "none"
     | _, _ => "bad-op"
+  | "hsr" :: m :: script :: rest =>
+    let calls := script.toList.filterMap fun ch =>
+      if ch == 'h' then some Call.hs else if ch == 'w' then some Call.wr
+      else if ch == 'r' then some Call.rd else none
+    if rest.length ≥ 1 && rest.length < 61 && script.length ≥ 1 && script.length ≤ 8
+        && calls.length == script.length then
+      match modeOf m, parseName (rest.getLast!), parseEntries rest.dropLast ⟨[], []⟩ with
+      | some strict, some name, some cert =>
+        let r := checkName (ipLit strict) cert name
+        let outs := (runCalls r ⟨false⟩ calls).map fun (ok, cls) => if ok then "ok" else "fail:" ++ cls
+        "calls=" ++ ",".intercalate outs
+      | _, _, _ => "bad-op"
+    else "bad-op"
   | ["cnew"] => "ok"
   | ["creset"] => "ok"
   | ["cfail", m, nm] =>
